@@ -95,6 +95,8 @@ POW_FAMILIES = [
     ("addr-label-outp", lambda e: "#bankdef rom { #addr 0, #outp 8 }\n#addr %s\nend:\n" % e),
     ("addr-res0-outp", lambda e: "#bankdef rom { #addr 0, #outp 8 }\n#addr %s\n#res 0\n" % e),
     ("align-label-outp", lambda e: "#bankdef rom { #addr 0, #outp 8 }\n#d8 1\n#align %s\nend:\n" % e),
+    # an asm block evaluated where the cursor is already at the end of the machine word
+    ("addr-asm", lambda e: "#ruledef\n{\n    nop => 0x00\n    two => asm { nop \n nop }\n}\n#addr %s\ntwo\n" % e),
     # the same indices where sizes are computed statically (rule productions)
     ("slice-left-static", lambda e: "#ruledef\n{\n    t {x} => x[%s:0]\n}\nt 1\n" % e),
     ("slice-concat-static", lambda e: "#ruledef\n{\n    t {x} => x[%s:0] @ x[%s:0]\n}\nt 1\n" % (e, e)),
@@ -182,6 +184,15 @@ def run_c19(ck):
             # the power itself and its two neighbours (2^64 - 1 is the largest index type value)
             for suffix, e in (("", "(1 << %d)" % k), ("-below", "((1 << %d) - 1)" % k), ("-below2", "((1 << %d) - 2)" % k)):
                 plan.append((name + suffix, -1, False, k, {"main.asm": gen(e), "data.bin": b"\x01\x02\x03\x04", "data.hex": "0123abcd"}, None))
+    # the group size of the listing formats, a number on the command line: small (fine), at the machine word (an
+    # invalid argument), and in between (rows are padded to the group width: the known finding F53)
+    for fmt in ("annotated", "tcgame"):
+        for fam, kk, offs in (("group-option", [1, 8, 16, 20], (0,)), ("group-option-wide", [40, 60], (0,)),
+                              ("group-option-word", [61, 62, 63, 64, 65, 200], (0, 1))):
+            for k in kk:
+                for off in offs:
+                    plan.append(("%s-%s%s" % (fam, fmt, "-below" if off else ""), -1, False, k, {"main.asm": "#d8 1\n#d16 2\n"},
+                                 ["--", "-f", "%s,group:%d" % (fmt, (1 << k) - off), "-p"]))
     for name, gen in LIT_FAMILIES:
         for n in digs:
             if name == "iters-option":
